@@ -14,7 +14,7 @@ from ..rules import has_guard
 C = "reactivex/scheduler/catchscheduler.py"
 
 
-from ..astutil import compare_parts, compare_parts as compare_parts_  # noqa: E402
+from ..astutil import arg_of, compare_parts, compare_parts as compare_parts_  # noqa: E402
 
 
 def handler_analysis(rep: Report, fn, handler_call_prefix: str, what: str, extra_swallow=None) -> None:
@@ -82,7 +82,7 @@ def check(repo: Repo, rep: Report) -> None:
             c = calls[0].node
             args = [u(a) for a in c.args]
             kw = {k.arg: u(k.value) for k in c.keywords}
-            ok = args == fwd + [wname] and kw.get("state", args[-1] if len(args) > len(fwd) + 1 else None) == "state" \
+            ok = args in (fwd + [wname, "state"], fwd + [wname]) and (len(args) == len(fwd) + 2 or kw.get("state") == "state") \
                 and dominates(wraps[0], calls[0])
             if wname == "action":
                 pass
@@ -91,7 +91,7 @@ def check(repo: Repo, rep: Report) -> None:
             c = calls[0].node
             args = [u(a) for a in c.args]
             kw = {k.arg: u(k.value) for k in c.keywords}
-            ok = args == fwd + ["self._wrap(action)"] and kw.get("state") == "state"
+            ok = args == fwd + ["self._wrap(action)", "state"] or (args == fwd + ["self._wrap(action)"] and kw.get("state") == "state")
         rep.ob("W1-wrap-coverage", m, f"{mname}: wrapped scheduler receives the wrapped action", ok,
                f"CatchScheduler.{mname} hands the raw action (or mis-forwarded arguments) to the wrapped scheduler: its "
                f"exceptions never reach the handler")
@@ -196,8 +196,8 @@ def check(repo: Repo, rep: Report) -> None:
                                          and isinstance(s.node.targets[0], ast.Name)}
     calls = [s for s in sites(sp) if isinstance(s.node, ast.Call) and isinstance(s.node.func, ast.Attribute) and s.node.func.attr == "schedule_periodic"
              and dotted(s.node.func.value) in inner_names]
-    ok = len(calls) == 1 and [u(a) for a in calls[0].node.args] == [sp.params[1], "periodic"] and \
-        {k.arg: u(k.value) for k in calls[0].node.keywords}.get("state") == "state" and \
+    ok = len(calls) == 1 and [u(a) for a in calls[0].node.args][:2] == [sp.params[1], "periodic"] and \
+        u(arg_of(calls[0].node, 2, "state")) == "state" and \
         isinstance(calls[0].stmt, ast.Assign) and u(calls[0].stmt.targets[0]) == f"{disp}.disposable"
     rep.ob("P1-periodic", sp, "disp.disposable = inner.schedule_periodic(period, periodic, state=state)", ok,
            "the guarded tick function (or period / state) is not what is scheduled periodically, or its subscription is not held")
